@@ -33,6 +33,9 @@ type c13Case struct {
 	Handler string    `json:"handler"`
 	Account string    `json:"account"`
 	Limit   int       `json:"limit,omitempty"` // limit family: number of external extension files (9, 10, 11), trivial scripts
+	// LateExit: after the closing invocation an external extension that is parked on its next reports an exit error on
+	// another connection, a second invocation begins, and the extension tries again: the exit error is final
+	LateExit bool `json:"lateExit,omitempty"`
 }
 
 type c13Agent struct {
@@ -251,6 +254,7 @@ type c13Plan struct {
 	expect  map[string]*c13Expect
 	tags    []string
 	closing bool // the closing moves were appended: the invocation must complete
+	late    bool // the late-exit epilogue was appended
 	invoked bool
 }
 
@@ -385,6 +389,51 @@ func (c *c13Case) plan() *c13Plan {
 			k++
 		}
 		drv = append(drv, Step{Op: "await", Name: prev, Ms: 8000}, Step{Op: "join", Tag: "F"})
+		late := ""
+		if c.LateExit && m.rt == "parked" && !m.inv {
+			for _, an := range m.order {
+				if a := m.agents[an]; a.ext && a.state == "ready" && a.parked != "" && hasStr(a.subs, "INVOKE") {
+					late = an
+					break
+				}
+			}
+		}
+		if late != "" {
+			p.late = true
+			a := m.agents[late]
+			exp := func(tag string, status int, ty string) {
+				p.expect[tag] = &c13Expect{Status: status, ErrType: ty}
+				p.tags = append(p.tags, tag)
+			}
+			act := actorOf(late)
+			exp("late.exit1", 202, "")
+			scripts[act] = append(scripts[act], Step{Op: "ext.exiterror", Name: late, ErrType: "Extension.Boom", Tag: "late.exit1", Await: []string{prev}, Signal: []string{"late.reported"}})
+			// the second invocation hands its event to every parked INVOKE subscriber; what the parked call of the
+			// extension that has reported its exit is answered is not prescribed (it is answered 403 today)
+			for _, an := range m.order {
+				b := m.agents[an]
+				if b.state == "ready" && b.parked != "" && hasStr(b.subs, "INVOKE") {
+					if an == late {
+						delete(p.expect, b.parked)
+					} else {
+						p.expect[b.parked] = &c13Expect{Status: 200}
+					}
+				}
+			}
+			a.state = "exiterr"
+			drv = append(drv, Step{Op: "await", Name: "late.reported", Ms: 4000},
+				Step{Op: "invoke", Async: true, Tag: "G", Payload: &kit.Blob{Len: 19, Seed: 6, Kind: "ascii"}}, Step{Op: "waitreserved"}, Step{Op: "sleep", Ms: 40}, Step{Op: "signal", Name: "late.second"})
+			exp("late.next", 403, "Extension.InvalidExtensionState")
+			exp("late.init", 403, "Extension.InvalidExtensionState")
+			exp("late.exit2", 202, "")
+			exp("late.next2", 403, "Extension.InvalidExtensionState")
+			scripts[act] = append(scripts[act],
+				Step{Op: "ext.next", Name: late, Tag: "late.next", Await: []string{"late.second"}},
+				Step{Op: "ext.initerror", Name: late, ErrType: "Extension.Boom", Tag: "late.init"},
+				Step{Op: "ext.exiterror", Name: late, ErrType: "Extension.Again", Tag: "late.exit2"},
+				Step{Op: "ext.next", Name: late, Tag: "late.next2", Signal: []string{"late.done"}})
+			drv = append(drv, Step{Op: "await", Name: "late.done", Ms: 6000})
+		}
 	} else if prev != "" {
 		drv = append(drv, Step{Op: "await", Name: prev, Ms: 8000})
 	}
@@ -428,6 +477,9 @@ func c13Check(c c13Case) (out kit.Outcome) {
 	}
 	if p.closing {
 		out.Label("closing:invocation-must-complete")
+	}
+	if p.late {
+		out.Label("late-exit-error")
 	}
 	out.Nontrivial = len(kinds) == 2 && refused
 	if run.Died {
@@ -618,6 +670,7 @@ func c13Gen(t *rapid.T) c13Case {
 		Version: rapid.SampledFrom([]string{"$LATEST", "1", "42"}).Draw(t, "version"),
 		Handler: rapid.SampledFrom([]string{"", "index.handler", "a.b::c"}).Draw(t, "handler"),
 		Account: rapid.SampledFrom([]string{"", "123456789012"}).Draw(t, "account")}
+	c.LateExit = rapid.IntRange(0, 2).Draw(t, "lateExit") == 0
 	m := newC13Model(c.NExt)
 	evs := [][]string{{"INVOKE"}, {"INVOKE", "SHUTDOWN"}, {"SHUTDOWN"}, {}, {"JUNK"}, {"INVOKE", "JUNK"}}
 	n := rapid.IntRange(2, 18).Draw(t, "n")
@@ -683,7 +736,10 @@ func c13Fixed() []c13Case {
 	b := base
 	b.Moves = []c13Move{{Who: "e0", Op: "reg", Ev: []string{"INVOKE"}}, {Who: "e1", Op: "reg", Ev: []string{}}, {Who: "e0", Op: "initerr"}, {Who: "e0", Op: "initerr"}, {Who: "e0", Op: "exiterr"}, {Who: "e0", Op: "next"},
 		{Who: "e1", Op: "next"}, {Who: "e1", Op: "exiterr"}, {Who: "e1", Op: "exiterr"}, {Who: "e1", Op: "initerr"}}
-	return []c13Case{a, b, {Limit: 9}, {Limit: 10}, {Limit: 11}}
+	l := base
+	l.LateExit = true
+	l.Moves = []c13Move{{Who: "e0", Op: "reg", Ev: []string{"INVOKE"}}, {Who: "e1", Op: "reg", Ev: []string{"INVOKE", "SHUTDOWN"}}, {Who: "i0", Op: "reg", Ev: []string{"INVOKE"}}}
+	return []c13Case{a, b, l, {Limit: 9}, {Limit: 10}, {Limit: 11}}
 }
 
 func TestC13(t *testing.T) {
